@@ -199,10 +199,14 @@ class Facts:
         shutil.rmtree(self.dir, ignore_errors=True)
 
 
-def load(repo=None, extra_rustflags=""):
+def load(repo=None, extra_rustflags="", normalise=True):
     d, secs = build_facts(repo, extra_rustflags)
     try:
         f = Facts(d)
+        f.inlined = {}
+        if normalise:
+            from . import inline
+            f.inlined = inline.normalise(f, Fn)
     except Exception:
         shutil.rmtree(d, ignore_errors=True)
         raise
